@@ -231,9 +231,9 @@ theorem C09_removeByName (p c : Nat) (name : String) (i : Int) (h : Heap) (cn : 
   simp only [hca] at hok ⊢
   exact ⟨C09_remove_list p c h cn hc hok hnt, fun q hq => C09_remove_frame p c q h hok hq⟩
 
-/-- deleting an absent repetition is rejected and changes nothing (C12) -/
+/-- deleting an absent repetition is refused with a library exception (`ChildNotFound`) and changes nothing (C12, C14) -/
 theorem C09_removeByName_absent (p : Nat) (name : String) (i : Int) (h : Heap) (habs : childAt h p name i = none) :
-    removeByName p name i h = (h, .error .crash) := by
+    removeByName p name i h = (h, .error .childNotValid) := by
   unfold removeByName; simp [habs]
 
 /-- non-vacuity: a concrete heap on which replacement succeeds and keeps the order -/
